@@ -140,7 +140,8 @@ class LoopSpec:
                                 inside the loop that the invariant mentions
     """
 
-    def __init__(self, invariant, variant=None, havoc=None, keep=(), extra_havoc=()):
+    def __init__(self, invariant, variant=None, havoc=None, keep=(), extra_havoc=(), after_body=None):
+        self.after_body = after_body      # (I, vars, iter_state) -> obligations about ONE arbitrary iteration
         self.invariant = invariant
         self.variant = variant
         self.havoc = havoc
@@ -1602,6 +1603,9 @@ class Interp:
             pass
         if iter_state is not None and "i" in iter_state:
             iter_state["i"] = iter_state["i"] + 1
+        if spec.after_body is not None:
+            for label, g in spec.after_body(I, fr.vars, iter_state):
+                I.oblige(f"{tag}.iteration.{label}", g)
         for label, g in spec.invariant(I, fr.vars, iter_state):
             I.oblige(f"{tag}.inv_preserved.{label}", g)
         if spec.variant:
